@@ -186,6 +186,12 @@ impl Check for C18 {
             scn.sampling.script = script;
             scn.family = format!("{}+alphabet", scn.family);
         }
+        // a tenth of the scenarios assign the public parameter fields after setup (the
+        // constructor got other values)
+        if rng.chance(0.1) {
+            let ctor = gen::gen_planner(&mut rng, PlannerKind::PRM, ext);
+            scn.reconfigure_after_setup(ctor);
+        }
         scn
     }
 
@@ -201,7 +207,7 @@ impl Check for C18 {
         }
         let ev = Eval::new(scn, &out);
         let g = &ev.geo;
-        let r = scn.planner.connection_radius;
+        let r = scn.planner_at(scn.calls.len()).connection_radius;
         let w = 0usize;
         let free = scn.worlds[0].obstacles.is_empty() && crate::treechecks::bounds_convex(&scn.space);
         if free {
@@ -508,7 +514,7 @@ impl Check for C18 {
                         }
                     }
                 }
-                CallSpec::New => {}
+                CallSpec::New | CallSpec::SetParams { .. } => {}
             }
         }
         rep.violations = v;
